@@ -96,4 +96,57 @@ theorem machine_factor (c : ElfCfg) (hc : c ∈ allElfCfgs) (m : String) :
   have _ := hc
   exact machine_factor_aux m
 
+/-! ### the same for descriptions with compressed sections (`wfZ`, Spec/ElfImage.lean)
+
+  `ElfDesc.wfZ` is `wf` with the SHF_COMPRESSED exclusion relaxed: a section may carry the flag when
+  its body begins with a complete compression header for the class (`Section.__init__` reads the
+  `Elf_Chdr` when it constructs a flagged section, and nothing else of the body).  Every theorem
+  above holds verbatim; the contents of compressed sections are C02's / C11's subject. -/
+
+/-- every `wf` description is `wfZ` -/
+theorem wf_imp_wfZ (env : Env) (d : ElfDesc) (h : d.wf env = true) : d.wfZ env = true :=
+  Proofs.wf_imp_wfZ h
+
+theorem assemble_layout_z (env : Env) (d : ElfDesc) (tail : Nat) (bytes : Bytes)
+    (hwf : d.wfZ env = true) (h : d.assemble tail = some bytes) : Layout d bytes :=
+  assemble_layout_aux_z hwf h
+
+theorem open_exact_z (env : Env) (d : ElfDesc) (bytes : Bytes) (obs : ElfObs)
+    (hwf : d.wfZ env = true) (hl : Layout d bytes) (ho : d.observe env = .ok obs) :
+    ∃ f, openElf env specStructs specMachineClass bytes = .ok f ∧
+      f.data = bytes ∧ f.cls = d.cls ∧ f.le = d.le ∧ f.S = d.S ∧ f.header = obs.header := by
+  rw [specStructs_eq, specMachineClass_eq]
+  exact open_aux_z hwf hl ho
+
+theorem counts_exact_z (env : Env) (d : ElfDesc) (bytes : Bytes) (obs : ElfObs) (f : ElfFile)
+    (hwf : d.wfZ env = true) (hl : Layout d bytes) (ho : d.observe env = .ok obs)
+    (hf : openElf env specStructs specMachineClass bytes = .ok f) :
+    numSections env f.S bytes f.header = .ok d.sections.length ∧
+    numSegments env f.S bytes f.header f.shstr = .ok d.segments.length := by
+  rw [specStructs_eq, specMachineClass_eq] at hf
+  exact counts_aux_z hwf hl ho hf
+
+/-- every section, by index — compressed ones included: kind, name, every header field -/
+theorem get_section_exact_z (env : Env) (d : ElfDesc) (bytes : Bytes) (obs : ElfObs) (f : ElfFile)
+    (hwf : d.wfZ env = true) (hl : Layout d bytes) (ho : d.observe env = .ok obs)
+    (hf : openElf env specStructs specMachineClass bytes = .ok f)
+    (i : Nat) (hi : i < d.sections.length) :
+    (getSection env f.S bytes f.header f.shstr i).toOption = obs.sections[i]? := by
+  rw [specStructs_eq, specMachineClass_eq] at hf
+  exact get_section_aux_z hwf hl ho hf i hi
+
+theorem sections_exact_z (env : Env) (d : ElfDesc) (bytes : Bytes) (obs : ElfObs) (f : ElfFile)
+    (hwf : d.wfZ env = true) (hl : Layout d bytes) (ho : d.observe env = .ok obs)
+    (hf : openElf env specStructs specMachineClass bytes = .ok f) :
+    iterSections env f.S bytes f.header f.shstr = .ok obs.sections := by
+  rw [specStructs_eq, specMachineClass_eq] at hf
+  exact sections_aux_z hwf hl ho hf
+
+theorem segments_exact_z (env : Env) (d : ElfDesc) (bytes : Bytes) (obs : ElfObs) (f : ElfFile)
+    (hwf : d.wfZ env = true) (hl : Layout d bytes) (ho : d.observe env = .ok obs)
+    (hf : openElf env specStructs specMachineClass bytes = .ok f) :
+    iterSegments env f.S bytes f.header f.shstr = .ok obs.segments := by
+  rw [specStructs_eq, specMachineClass_eq] at hf
+  exact segments_aux_z hwf hl ho hf
+
 end PyElf.Props.C01
